@@ -14,6 +14,7 @@ let table = [
   ("dispatch", Model.entry_dispatch);
   ("conntable", Model.entry_conntable);
   ("abi", Model.entry_abi);
+  ("gt", Model.entry_gt);
   ("adaptor", Model.entry_adaptor);
   ("adaptorgas", Model.entry_adaptor_gas);
   ("firstevent", Model.entry_firstevent);
